@@ -1687,3 +1687,96 @@ func runFreshRecord(p *Program, c *Collector, fr FreshRecordSpec) {
 		c.Ob(fr.Props, "E7.fresh-record", "freshrecord:"+strings.Join(fr.Funcs, ","), Undecided, fr.What+": no record is started in the named functions any more (anchor lost)", "", false)
 	}
 }
+
+// ---------------------------------------------------------------------------------------------
+// copied record: a listener starts the record of a member type as a copy of the enclosing type's record (so that it keeps what
+// belongs to the file: package, imports, path). What belongs to the *type* — its superclass, the interfaces it implements, the
+// calls made by its field initialisers — must be cleared on the copy in the same function, or the member inherits them.
+type CopiedRecordSpec struct {
+	Props  []string `json:"props"`
+	Func   string   `json:"func"`
+	Global string   `json:"global"` // the pointer that is re-pointed to the copy
+	Fields []string `json:"fields"` // per-type fields that must be cleared on the copy
+	What   string   `json:"what"`
+}
+
+func runCopiedRecord(p *Program, c *Collector, cr CopiedRecordSpec) {
+	fn := p.Func(cr.Func)
+	if fn == nil {
+		c.Anchor(cr.Props, "E7: copied record: %s does not resolve", cr.Func)
+		return
+	}
+	key := "copiedrecord:" + cr.Func
+	// the copy: a store of *P (the whole record) into a fresh cell whose address is then stored into P
+	var cell ssa.Value
+	var at ssa.Instruction
+	for _, b := range fn.Blocks {
+		for _, in := range b.Instrs {
+			st, ok := in.(*ssa.Store)
+			if !ok {
+				continue
+			}
+			if g, whole := globalOfAddr(st.Addr); g != nil && whole && p.GlobalKey(g) == cr.Global {
+				if al, ok := st.Val.(*ssa.Alloc); ok {
+					// was the cell filled from *P?
+					for _, r := range *al.Referrers() {
+						if st2, ok := r.(*ssa.Store); ok && st2.Addr == ssa.Value(al) {
+							if ld, ok := st2.Val.(*ssa.UnOp); ok && ld.Op == token.MUL {
+								if lg := loadedGlobal(ld.X); lg != nil && p.GlobalKey(lg) == cr.Global {
+									cell, at = al, in
+								}
+							}
+						}
+					}
+				}
+			}
+		}
+	}
+	if cell == nil {
+		c.Ob(cr.Props, "E7.copied-record", key, Discharged, cr.What+": "+shortFn(cr.Func)+" does not start a record as a copy of the current one", p.FuncPos(fn), true)
+		return
+	}
+	missing := ""
+	for _, f := range cr.Fields {
+		cleared := false
+		for _, b := range fn.Blocks {
+			for _, in := range b.Instrs {
+				st, ok := in.(*ssa.Store)
+				if !ok {
+					continue
+				}
+				fa, ok := st.Addr.(*ssa.FieldAddr)
+				if !ok {
+					continue
+				}
+				if name, _ := fieldOf(fa.X.Type(), fa.Field); name != f {
+					continue
+				}
+				// through the cell itself or through P after it was re-pointed
+				viaCell := fa.X == cell
+				viaP := false
+				if lg := loadedGlobal(fa.X); lg != nil && p.GlobalKey(lg) == cr.Global && (at.Block().Dominates(in.Block()) || at.Block() == in.Block()) {
+					viaP = true
+				}
+				if !viaCell && !viaP {
+					continue
+				}
+				if cst, ok := st.Val.(*ssa.Const); ok && (cst.Value == nil || cst.Value.String() == `""`) {
+					// an unconditional clearing: its block is the copy's block or is dominated by it and post-dominates it in
+					// practice — here: same block as the copy
+					if in.Block() == at.Block() {
+						cleared = true
+					}
+				}
+			}
+		}
+		if !cleared {
+			missing = f
+		}
+	}
+	if missing != "" {
+		c.Ob(cr.Props, "E7.copied-record", key, Violated, cr.What+": "+shortFn(cr.Func)+" starts the member's record as a copy of the enclosing type's ("+p.InstrPos(at)+") and does not clear "+missing+": the member type inherits it", p.InstrPos(at), false)
+	} else {
+		c.Ob(cr.Props, "E7.copied-record", key, Discharged, "what belongs to the enclosing type is cleared on the copy", p.InstrPos(at), true)
+	}
+}
